@@ -56,8 +56,12 @@ type AbsfsNFS struct {
 	dirCache         *DirCache               // Cache for directory entries
 	workerPool       *WorkerPool             // Worker pool for concurrent operations
 	metrics          *MetricsCollector       // Metrics collection and reporting
-	rateLimiter      *RateLimiter            // Rate limiter for DoS protection
 	exportServer     *Server                 // Server created by Export(), nil if not exported
+
+	// rateLimiter is the rate limiter for DoS protection (nil when disabled). It is replaced
+	// by UpdatePolicyOptions and loaded per request, also by the connection loop, which runs
+	// outside the policy read lock.
+	rateLimiter atomic.Pointer[RateLimiter]
 
 	// Options are stored as immutable snapshots behind atomic pointers.
 	// Readers load the pointer -- no lock needed.
